@@ -138,6 +138,11 @@ pub fn world_opt() -> Option<&'static World> {
     WORLD.get()
 }
 
+pub fn trace_refs() -> bool {
+    static ON: OnceLock<bool> = OnceLock::new();
+    *ON.get_or_init(|| std::env::var_os("VERIF_TRACE_REF").is_some())
+}
+
 pub fn emit(kind: u32, a: u64, b: u64, c: u64) {
     mmtk::verif::emit(kind, a, b, c, 0);
 }
@@ -444,6 +449,9 @@ where
 
 pub fn resume_mutators(_tls: VMWorkerThread) {
     let w = world();
+    if trace_refs() {
+        eprintln!("REFTRACE --- pause {} ends", w.counters.gcs.load(Ordering::Relaxed));
+    }
     emit(EV_RESUME_ENTER, 0, 0, 0);
     w.counters.gcs.fetch_add(1, Ordering::Relaxed);
     // All GC work of this pause is done and every mutator is still parked: quiescent point.
@@ -581,6 +589,12 @@ pub fn record_move(id: u64, from: usize, to: usize, bytes: usize, how: u8) {
     if !w.first_copy_logged.swap(true, Ordering::SeqCst) {
         emit(EV_FIRST_COPY, id, from as u64, to as u64);
     }
+    if trace_refs() {
+        let h = unsafe { read_hdr(start_of(to)) };
+        if h.kind != KIND_NORMAL {
+            eprintln!("REFTRACE move id={} {:#x}->{:#x}", id, from, to);
+        }
+    }
     let shard = mmtk::verif::thread_id() as usize % w.moves.len();
     w.moves[shard].lock().unwrap().push(MoveRec { id, from, to, bytes, how });
 }
@@ -608,6 +622,9 @@ pub fn on_enqueue_references(references: &[ObjectReference], _tls: VMWorkerThrea
     emit(EV_ENQUEUE_REFS, references.len() as u64, 0, 0);
     let mut gl = world().gclog.lock().unwrap();
     for r in references {
+        if trace_refs() {
+            eprintln!("REFTRACE enqueue {} id={}", r, unsafe { read_hdr(start_of(r.to_raw_address().as_usize())).id });
+        }
         gl.enqueued.push(r.to_raw_address().as_usize());
     }
 }
